@@ -31,7 +31,83 @@ def register(reg):
                      ensures=['forall_n(lambda t: (t in final_channel_name_sub_set) == ((t in channel_name_sub_set) or '
                               '(len(channel_name_sub_set) != 0 and t == frame_array.x_axis.ident)))',
                               '(len(final_channel_name_sub_set) == 0) == (len(channel_name_sub_set) == 0)'],
-                     canaries=['len(final_channel_name_sub_set) == 0'], crosscheck=False))
+                     canaries=['len(final_channel_name_sub_set) == 0'], crosscheck=False, inline_at_calls=True))
+    register_data_rows(reg)
+
+
+def register_data_rows(reg):
+    """write_array_section_data_to_las, the whole function: the strings written to the stream are, for every frame in order,
+    for every selected channel in frame-array order, [a blank unless it is the first channel,] the formatted reduction of that
+    channel's row of that frame, then a newline; nothing else is written and nothing written before is touched.  The stream
+    is the sequence of strings written (TextIO log), an array is the sequence of its rows (ids) and its dtype, the text of a
+    formatted value is an uninterpreted function of (format skeleton, value, embedded width / precision), array_reduce is an
+    uninterpreted function of (row, method): which characters are printed is the stand-in's business, WHAT is printed, WHERE
+    and HOW OFTEN is decided here."""
+    S, mem, empty = _requested()
+    ARR = KRec('ndarray', rows=KView(Int), dtype=Int)
+    CH = KRec('FrameChannel', ident=Int, array=ARR)
+    FA = KRec('FrameArray', channels=KView(CH))
+    OUT = KRec('TextIO', log=KView(Str))
+    reg.add_spec_source('''
+def sel(frame_array, S, c):
+    """channel c is written: everything when nothing is requested, else the first channel and the requested ones"""
+    return len(S) == 0 or (frame_array.channels[c].ident in S) or frame_array.channels[c].ident == frame_array.channels[0].ident
+
+def tok(frame_array, c, f, method, width, fmt):
+    return (pyfmt('{}.0f', uf_real('reduce', frame_array.channels[c].array.rows[f], method), width)
+            if np_is_integer(frame_array.channels[c].array.dtype)
+            else pyfmt('{}{}', uf_real('reduce', frame_array.channels[c].array.rows[f], method), width, fmt))
+
+def rows_nl(log, P, RB, n, upto):
+    """rows 0..upto-1 end with a newline"""
+    return forall(0, upto, lambda f: log[RB[f] + P[n]] == "\\n", trigger=lambda f: [RB[f]])
+
+def rows_tok(log, frame_array, S, P, RB, n, upto, kk, method, width, fmt):
+    """rows 0..upto-1 are in the log, and of row `upto` the channels 0..kk-1: the token of every selected channel at its place,
+    a blank before it unless it is the first"""
+    return forall_n(lambda f, c: implies(0 <= f and f <= upto and 0 <= c and c < (n if f < upto else kk) and sel(frame_array, S, c),
+                    log[RB[f] + P[c + 1] - 1] == tok(frame_array, c, f, method, width, fmt)
+                    and implies(c > 0, log[RB[f] + P[c]] == " ")), trigger=lambda f, c: (RB[f], P[c]))
+''')
+    reg.add(Contract(WL, '_check_float_decimal_places_format', {'float_decimal_places_format': Str},
+                     raises={'ValueError': 'not uf_bool("float_format_ok", float_decimal_places_format)'}, trusted=True,
+                     note='which precision texts are accepted is the regular expression\'s business (not stated here)'), verify=False)
+    reg.add(Contract(WL, 'array_reduce', {'array': Int, 'method': Str}, returns=Real, ensures=['result == uf_real("reduce", array, method)'],
+                     trusted=True, note='numpy reduction of one row: an uninterpreted function of (row, method)'), verify=False)
+    N = 'len(frame_array.channels)'
+    F = 'len(frame_array.channels[0].array.rows)'
+    LOG = 'out_stream.log'
+    ARGS = 'array_reduction, field_width, float_decimal_places_format'
+    GEOM = ['len(P) == %s + 1' % N, 'P[0] == 0',
+            'forall(0, %s, lambda c: P[c + 1] == P[c] + (0 if not sel(frame_array, channel_name_sub_set, c) else (1 if c == 0 else 2)), trigger=lambda c: [P[c]])' % N,
+            'len(RB) == %s + 1' % F, 'RB[0] == len(%s)' % LOG,
+            'forall(0, %s, lambda f: RB[f + 1] == RB[f] + P[%s] + 1, trigger=lambda f: [RB[f]])' % (F, N),
+            # consequences of the two recurrences (stated, because the solver does no induction): offsets grow along a row and
+            # rows do not overlap
+            'forall_n(lambda c, d: implies(0 <= c and c <= d and d <= %s, P[c] <= P[d]), trigger=lambda c, d: (P[c], P[d]))' % N,
+            'forall_n(lambda f, g: implies(0 <= f and f < g and g <= %s, RB[f] + P[%s] + 1 <= RB[g]), trigger=lambda f, g: (RB[f], RB[g]))' % (F, N)]
+    KEEP = 'forall(0, len(old(%s)), lambda i: %s[i] == old(%s)[i])' % (LOG, LOG, LOG)
+    reg.add(Contract(
+        WL, 'write_array_section_data_to_las',
+        {'frame_array': FA, 'array_reduction': Str, 'channel_name_sub_set': S, 'field_width': Int, 'float_decimal_places_format': Str, 'out_stream': OUT},
+        ghost={'P': KView(Int), 'RB': KView(Int)},
+        assume=['implies(len(channel_name_sub_set) == 0, forall_n(lambda t: not (t in channel_name_sub_set)))'],
+        requires=['%s >= 1' % N, 'uf_bool("float_format_ok", float_decimal_places_format)',
+                  # every channel holds a row for every frame; integer and floating dtypes (others are printed with str())
+                  'forall(0, %s, lambda c: len(frame_array.channels[c].array.rows) == %s and (np_is_integer(frame_array.channels[c].array.dtype) '
+                  'or np_is_floating(frame_array.channels[c].array.dtype)))' % (N, F)] + GEOM,
+        modifies=['out_stream.log'],
+        ensures=['len(%s) == RB[%s]' % (LOG, F), KEEP,
+                 'rows_nl(%s, P, RB, %s, %s)' % (LOG, N, F), 'rows_tok(%s, frame_array, channel_name_sub_set, P, RB, %s, %s, 0, %s)' % (LOG, N, F, ARGS)],
+        loops=[Loop('for frame_number in range(num_writable_frames)', index='fi', invariants=[
+                   'num_writable_frames == %s' % F, '0 <= fi and fi <= %s' % F,
+                   'len(%s) == RB[fi]' % LOG, KEEP,
+                   'rows_nl(%s, P, RB, %s, fi)' % (LOG, N), 'rows_tok(%s, frame_array, channel_name_sub_set, P, RB, %s, fi, 0, %s)' % (LOG, N, ARGS)]),
+               Loop('for (c, channel) in enumerate(frame_array.channels)', index='k', invariants=[
+                   'num_writable_frames == %s' % F, '0 <= frame_number and frame_number < %s' % F,
+                   'len(%s) == RB[frame_number] + P[k]' % LOG, KEEP,
+                   'rows_nl(%s, P, RB, %s, frame_number)' % (LOG, N), 'rows_tok(%s, frame_array, channel_name_sub_set, P, RB, %s, frame_number, k, %s)' % (LOG, N, ARGS)])],
+        canaries=['len(%s) == len(old(%s))' % (LOG, LOG)], crosscheck=False, timeout=25))
 
 
 def _channel_condition(fname):
